@@ -210,7 +210,15 @@ class Driver:
 
     def on_submit(self, executor, job, script: bool) -> None:
         self.running.append(job)
-        units = {k: v for k, v in dict(job.get_limits()).items() if v}
+        # the units the job DECLARES (task definition overridden by call-time / exported options), read through the
+        # option interface and parsed here: not through Job.get_limits(), which is the code under test
+        try:
+            lim = job.get_option("limits", {}) if job.task else {}
+            if isinstance(lim, (list, tuple, set)):
+                lim = {n: 1 for n in lim}
+            units = {k: int(v) for k, v in dict(lim).items() if v}
+        except Exception:  # noqa
+            units = {k: v for k, v in dict(job.get_limits()).items() if v}
         ev = {"ev": "submit", "job": jname(job), "task": job.task.fullname,
               "task_hash": job.task.hash, "args_hash": job.args_hash, "eval_hash": job.eval_hash,
               "ctx": job.context_hash or "", "units": units, "executor": executor.name,
